@@ -1,8 +1,11 @@
 #!/usr/bin/env python3
 """Import seeded changes written by a sub-agent (/tmp/mutants-<id>/<name>/) into /verif/seeded/<ID>-<name>/."""
 import json, os, shutil, subprocess, sys
-prop = sys.argv[1].lower()
-base = f"/tmp/mutants-{prop}"
+import re
+tag = sys.argv[1].lower()                       # e.g. c12 or c12w3 (a later round for the same property)
+base = f"/tmp/mutants-{tag}"
+m = re.match(r"(c\d\d)(?:w(\d+))?$", tag)
+prop, rnd = m.group(1), int(m.group(2) or 1)
 for name in sorted(os.listdir(base)):
     src = f"{base}/{name}"
     if not os.path.isfile(f"{src}/patch.diff"):
@@ -17,6 +20,6 @@ for name in sorted(os.listdir(base)):
             "source": "independent sub-agent given only the property text and a scratch worktree",
             "needs_to_manifest": "see notes.md",
             "confirmed": {"by": "/verif/bin/confirm_mutant.sh <worktree> <dir> --suite", "result": None},
-            "applies_to_repo_head": chk.returncode == 0}
+            "round": rnd, "applies_to_repo_head": chk.returncode == 0}
     json.dump(meta, open(f"{dst}/meta.json", "w"), indent=1)
     print(dst, "applies" if chk.returncode == 0 else "NO-APPLY " + chk.stderr[:120])
